@@ -14,7 +14,6 @@ NOT_APPLICABLE = {
     'C15': 'oracle is execution in a Lua VM; flow narrowing is whole-analysis',
     'C17': 'render -> parse -> infer round trip over strings and the type system',
     'C18': 'generic instantiation is a whole-pipeline property',
-    'C27': 'interleavings of spawned notification tasks: no thread/async model in Verus or Kani',
     'C28': 'deadlock freedom over RwLock acquisition order across async tasks: whole-history, no model in this family',
     'C29': 'interleavings of reload with notifications: schedules, not function contracts',
     'C30': 'debounce timers and cancellation across tasks: schedules, not function contracts',
